@@ -7,7 +7,7 @@
 From Coq Require Import String Floats.SpecFloat.
 From Statham.Model Require Import Str Json Elem PyNum Validate.
 From Statham.Model Require Import Plain Retr.
-From Statham.Proofs Require Import FaithfulProof DefaultsProof JsonEqProof C04Retrieve.
+From Statham.Proofs Require Import FaithfulProof DefaultsProof JsonEqProof C04Retrieve C04Only.
 Local Open Scope string_scope.
 
 (* scalars are returned unaltered by every class except Number *)
@@ -82,3 +82,25 @@ Print Assumptions C04_complete.
 Theorem C04_premise_checker : forall fuel e v, safeb fuel e v = true -> safe e v.
 Proof. exact safeb_sound. Qed.
 Print Assumptions C04_premise_checker.
+
+(* ---- "the only members that were not in the input are declared properties" -------------------------------
+   At every element or model class called on an object (premise: the local half of `safe` - well-formed property
+   map, no member named like the Python name of a renamed property): each key of the model built is either the
+   image of an input member (Retr: its Python name when declared, its JSON name otherwise) or the name of a
+   declared property.  Through compositions the object is built by one of the members (C04_complete's induction),
+   to which the statement applies in turn. *)
+Theorem C04_no_invented_members : forall O e m r, local_safe e (JObj m) -> build O e (Some (JObj m)) = Ok r ->
+  match e with
+  | EK _ k | EObj _ _ k =>
+    exists kvs', (r = RAnon kvs' \/ exists n, r = RInst n kvs') /\
+      forall name, In name (keys kvs') ->
+        (exists key x, In (key, x) m /\ name = name_of k key) \/ In name (keys (props_of e))
+  | _ => True
+  end.
+Proof. exact no_invented_members. Qed.
+Print Assumptions C04_no_invented_members.
+
+Theorem C04_declared_name : forall k n p,
+  NoDup (map (fun np : str * prop elem => p_source (snd np)) (match k_properties k with Some l => l | None => [] end)) ->
+  In (n, p) (match k_properties k with Some l => l | None => [] end) -> name_of k (p_source p) = n.
+Proof. exact name_of_declared. Qed.
